@@ -764,7 +764,8 @@ def filter_rows(repo, col, R):
     direct = lambda t: t.op == "item" and t.args and t.args[0].op == "elem"
     seqs = {}
     for s_ in ex.stores:
-        if s_.kind == "mcall" and s_.key.name == "append" and isinstance(s_.node, ast.Call) and isinstance(s_.node.func, ast.Attribute):
+        in_zip_loop = any(g.op == "loop" and g.args and g.args[0].op == "call" and g.args[0].name == "zip" for g in s_.guards)
+        if s_.kind == "mcall" and s_.key.name == "append" and isinstance(s_.node, ast.Call) and isinstance(s_.node.func, ast.Attribute) and in_zip_loop:
             arg = s_.value.args[-1]
             sel = next((x for x in arg.walk() if x.op == "sub" and direct(x.args[0])), None)
             if sel is None:
